@@ -136,7 +136,14 @@ def handleProgress (fs : List (String × String)) : Option String := do
   let tot ← getOptNat fs "total"
   let iv ← getNat fs "interval"
   let es := (← get fs "ev")
-  let evs ← if es == "-" || es == "" then some [] else (es.splitOn ",").mapM parsePEv
+  -- `B<w>x<k>` stands for k task completions of worker w
+  let parseTok : String → Option (List PEv) := fun t =>
+    if t.startsWith "B" then
+      match (t.drop 1).toString.splitOn "x" with
+      | [w, k] => do some (List.replicate (← k.toNat?) (PEv.taskDone (← w.toNat?)))
+      | _ => none
+    else (parsePEv t).map fun e => [e]
+  let evs ← if es == "-" || es == "" then some [] else ((es.splitOn ",").mapM parseTok).map List.flatten
   match prun { (pinit n tot) with interval := iv } evs with
   | none => some "reject"
   | some s => some s!"arr={showNats s.arr} pending={showNats (s.workers.map (·.pending))} shown={s.shown} complete={if s.complete then 1 else 0} done={s.done}"
